@@ -1226,6 +1226,31 @@ impl NodeMut for XmlDocument {
         Ok(XmlNode::from(value))
     }
 
+    fn replace_child(&self, new_child: XmlNode, old_child: &XmlNode) -> error::Result<XmlNode> {
+        // the document element may be replaced by another element: take the old one out
+        // first, or the new one is refused as a second document element.
+        let root = self.document_element().ok().map(|v| v.as_node().id());
+        let replaces_root = matches!(new_child, XmlNode::Element(_))
+            && root == Some(old_child.id())
+            && root != Some(new_child.id())
+            && same_document(&Some(self.clone()), &old_child.owner_document());
+        if !replaces_root {
+            self.insert_before(new_child, Some(old_child))?;
+            return self.remove_child(old_child);
+        }
+
+        let next = old_child.next_sibling();
+        let removed = self.remove_child(old_child)?;
+        match self.insert_before(new_child, next.as_ref()) {
+            Ok(_) => Ok(removed),
+            Err(e) => {
+                // a failed call changes nothing: put the document element back.
+                self.insert_before(removed, next.as_ref())?;
+                Err(e)
+            }
+        }
+    }
+
     fn remove_child(&self, old_child: &XmlNode) -> error::Result<XmlNode> {
         if !same_document(&Some(self.clone()), &old_child.owner_document()) {
             return Err(error::DomException::WrongDocumentErr)?;
